@@ -9,7 +9,7 @@ from lib.coqterm import cbool, cnat, cN, clist, copt
 
 ID = "C14"
 QUICK_N = 200
-THOROUGH_N = 3000
+THOROUGH_N = 1600
 SHARD = 25
 CASE_TYPE = "case"
 COQ_PRELUDE = "From MV Require Import Model.TlsTunnel.\n"
